@@ -765,6 +765,19 @@ def check_band_mask(ctx, rule="R7-band-mask"):
                          "(no longer aligned with f)", where)
         else:
             ctx.ob(rule, c, UNKNOWN if is_opaque(v) or isinstance(v, PV) else VIOLATED, f"band-limited field {k!r} is {v!r}"[:300], where)
+    # per-bin fields that plan() itself adds (derived from the scheduler's arrays) must be restricted to the band as well
+    for k, v in plan.d.items():
+        if k in allkeys or not isinstance(k, str): continue
+        c = f"{fkey}[band:{k}]"
+        if isinstance(v, lm.Masked):
+            (ctx.holds if _bool_arr_key(v.mask) == mk else ctx.violated)(rule, c, "derived per-bin field restricted by the band mask" if _bool_arr_key(v.mask) == mk else
+                                                                       f"derived per-bin field {k!r} is restricted with a different mask than the in-band test", where)
+        elif isinstance(v, (Arr, ArrParam)):
+            A_ = as_arr(v)
+            names_ = {a_.name for a_ in to_x(A_.body).all_atoms() if a_.tag == "idx"} if A_ is not None and A_.ndim == 1 and not isinstance(A_.body, PV) and to_x(A_.body) is not None else set()
+            if any(nm_.startswith("sch.") for nm_ in names_):
+                ctx.violated(rule, c, f"the per-bin field {k!r} that plan() derives from the scheduler's arrays ({', '.join(sorted(names_))}) is left at full length in a band-limited plan: "
+                             "bin i of the restricted plan reads the value of bin i of the unrestricted one", where)
     # without a band the plan passes the scheduler's arrays through
     try:
         R2, plan2, _, _ = run_plan(repo, allkeys, False)
